@@ -86,9 +86,17 @@ func runBatch(c *check, replay string) int {
 			replays = appendUnique(replays, filepath.Join(verifDir, k.Replay))
 		}
 	}
-	for i, rp := range replays {
-		var item batch.Item
-		rf, err := ev.LoadReplay(rp, &item)
+	// all replays of this property are built into ONE batch (one compile)
+	type rpl struct {
+		path string
+		item *batch.Item
+		part *part
+		rf   *ev.ReplayFile
+	}
+	byRace := map[bool][]*rpl{}
+	for _, rp := range replays {
+		item := &batch.Item{}
+		rf, err := ev.LoadReplay(rp, item)
 		if err != nil {
 			infra("replay %s: %v", rp, err)
 		}
@@ -105,39 +113,59 @@ func runBatch(c *check, replay string) int {
 		if item.G == nil {
 			continue // a replay of another engine listed for this property too
 		}
-		item.HasLexer, item.HasParser = flagsShape(&item)
-		b, err := batch.Build(env, filepath.Join(scratch, fmt.Sprintf("rb%d", i)), filepath.Join(verifDir, "h"), []*batch.Item{&item}, p.race)
-		failed, out := false, ""
-		if err != nil {
-			infra("replay %s: batch: %v", rp, err)
+		item.HasLexer, item.HasParser = flagsShape(item)
+		byRace[p.race] = append(byRace[p.race], &rpl{rp, item, p, rf})
+	}
+	for race, rs := range byRace {
+		var items []*batch.Item
+		for i, r := range rs {
+			r.item.Index = i
+			items = append(items, r.item)
 		}
-		if len(b.Live()) == 0 {
-			// the grammar no longer makes it into a binary: for the properties
-			// run here that means the case cannot be evaluated
-			failed, out = true, "grammar dropped: "+item.Dropped
-		} else {
-			stat := filepath.Join(scratch, fmt.Sprintf("rstat%d.json", i))
-			e := append(baseEnv(p, b), "VERIF_REPLAY="+rp, "VERIF_STATS="+stat)
-			o, err := run(b.Dir, e, b.Binary, "-test.run", "^TestBatch$", "-test.timeout", "10m")
-			m.add(stat)
-			if err != nil {
-				if strings.Contains(o, "INFRA:") {
-					infra("replay %s: %s", rp, o)
+		b, err := batch.Build(env, filepath.Join(scratch, fmt.Sprintf("rb_%v", race)), filepath.Join(verifDir, "h"), items, race)
+		if err != nil {
+			infra("replays: batch: %v", err)
+		}
+		for i, r := range rs {
+			rp := r.path
+			failed, out := false, ""
+			if r.item.Dropped != "" {
+				// the grammar no longer makes it into a binary: the case cannot be evaluated
+				failed, out = true, "grammar dropped: "+r.item.Dropped
+			} else {
+				// same case, index rewritten to the position in this batch
+				var cs map[string]json.RawMessage
+				json.Unmarshal(r.rf.Case, &cs)
+				cs["index"] = json.RawMessage(fmt.Sprint(i))
+				cb, _ := json.Marshal(cs)
+				rf2 := *r.rf
+				rf2.Case = cb
+				rb, _ := json.Marshal(&rf2)
+				tmp := filepath.Join(b.Dir, fmt.Sprintf("replay%d.json", i))
+				os.WriteFile(tmp, rb, 0o644)
+				stat := filepath.Join(scratch, fmt.Sprintf("rstat_%v_%d.json", race, i))
+				e := append(baseEnv(r.part, b), "VERIF_REPLAY="+tmp, "VERIF_STATS="+stat)
+				o, err := run(b.Dir, e, b.Binary, "-test.run", "^TestBatch$", "-test.timeout", "20m")
+				m.add(stat)
+				if err != nil {
+					if strings.Contains(o, "INFRA:") {
+						infra("replay %s: %s", rp, o)
+					}
+					failed, out = true, o
 				}
-				failed, out = true, o
+			}
+			if failed {
+				if k, ok := knownByReplay[rp]; ok {
+					fmt.Printf("KNOWN-FINDING: property=%s %s\n", c.id, k.What)
+					continue
+				}
+				violationPrinted = true
+				fmt.Printf("VIOLATION property=%s replay=%s\n", c.id, rp)
+				fmt.Println(indent(lastLines(out, 14)))
+				code = 1
 			}
 		}
 		os.RemoveAll(b.Dir)
-		if failed {
-			if k, ok := knownByReplay[rp]; ok {
-				fmt.Printf("KNOWN-FINDING: property=%s %s\n", c.id, k.What)
-				continue
-			}
-			violationPrinted = true
-			fmt.Printf("VIOLATION property=%s replay=%s\n", c.id, rp)
-			fmt.Println(indent(lastLines(out, 14)))
-			code = 1
-		}
 	}
 	if replay != "" {
 		m.violations = nil
